@@ -6,8 +6,9 @@
    to /repo.  Purely structural: holds for every reader.  No axioms. *)
 From V.lib Require Import Base.
 From V.c13 Require Import C13Model.
-From V.c15 Require Import C15Model.
-From V.c16 Require Import C16Model C16ReaderProofs C16SeiProofs C16ParseModel C16ParseProofs C16ParseErProofs.
+From V.c15 Require Import C15Model C15HevcModel.
+From V.c16 Require Import C16Model C16ReaderProofs C16SeiProofs C16ParseModel C16HevcParseModel C16ParseProofs C16ParseErProofs
+  C16ReaderMoreProofs C16HevcErProofs.
 
 Definition okerr {A} (r : res A) : Prop := r = Err \/ exists x, r = Ok x.
 
@@ -113,6 +114,87 @@ Section Sim.
     unfold parse_slice_header_d, parse_slice_header.
     repeat first [ apply refines_rplm | apply refines_mmco | rstep ].
   Qed.
+  (* ================================================================== HEVC *)
+  Lemma refines_if_oof {A} (c : bool) (P' P : @M St A) : refines P' P -> refines P' (if c then out_of_fuel else P).
+  Proof. intros H. destruct c; [apply refines_oof_r|exact H]. Qed.
+
+  Lemma rep_until_err_f_struct {A} (body : @M St A) : forall fl n s r,
+    rep_until_err_f R fl n body s = r -> okerr r -> rep_until_err R (N.to_nat n) body s = r.
+  Proof.
+    induction fl as [|f IH]; intros n s r E Hr.
+    - cbn [rep_until_err_f] in E. unfold out_of_fuel in E. destruct Hr as [H|[x H]]; congruence.
+    - cbn [rep_until_err_f] in E. destruct (n =? 0) eqn:Hn.
+      + apply N.eqb_eq in Hn. subst n. exact E.
+      + apply N.eqb_neq in Hn. replace (N.to_nat n) with (S (N.to_nat (n - 1))) by lia.
+        cbn [rep_until_err]. unfold bind in *. destruct (body s) as [[x s1]| | |]; try exact E.
+        unfold get_err in *. destruct (r_err R s1); [exact E|].
+        destruct (rep_until_err_f R f (n - 1) body s1) as [[t s2]| | |] eqn:E2.
+        * rewrite (IH (n - 1) s1 _ E2 (or_intror (ex_intro _ _ eq_refl))). exact E.
+        * rewrite (IH (n - 1) s1 _ E2 (or_introl eq_refl)). exact E.
+        * destruct Hr as [H|[y H]]; congruence.
+        * destruct Hr as [H|[y H]]; congruence.
+  Qed.
+
+  Lemma refines_rep_until_err {A} (body : @M St A) fl n :
+    refines (rep_until_err_f R fl n body) (rep_until_err_n R n body).
+  Proof.
+    intros s r E Hr Hn. unfold rep_until_err_n in *. destruct (n <=? loop_bound).
+    - apply (rep_until_err_f_struct body fl n s r E Hr).
+    - exfalso. apply Hn. reflexivity.
+  Qed.
+
+  Ltac rstep2 :=
+    lazymatch goal with
+    | |- refines ?a ?b =>
+        first [ constr_eq a b; apply refines_refl
+              | lazymatch goal with
+                | |- refines (bind _ _) (bind _ _) => apply refines_bind; [ | intro ]
+                | |- refines (if ?c then _ else _) (if ?c then _ else _) => destruct c
+                | |- refines _ (if _ then out_of_fuel else _) => apply refines_if_oof
+                | |- refines (match ?x with Some _ => _ | None => _ end) _ => destruct x
+                | |- refines (match ?p with pair _ _ => _ end) _ => destruct p
+                | |- refines (let _ := _ in _) _ => cbv zeta
+                | |- refines (rep_until_err_f R _ _ _) (rep_until_err_n R _ _) => apply refines_rep_until_err
+                end ]
+    end.
+
+  Lemma refines_hext : forall f1 f2 acc, refines (hext_data_loop R f1 acc) (hext_data_loop R f2 acc).
+  Proof.
+    induction f1 as [|f1 IH]; intros f2 acc.
+    - cbn [hext_data_loop]. apply refines_oof_l.
+    - destruct f2 as [|f2]; [cbn [hext_data_loop]; apply refines_oof_r|].
+      cbn [hext_data_loop]. repeat first [ apply IH | rstep2 ].
+  Qed.
+
+  Lemma refines_hlt : forall fl cnt i nlsps sp acc npt,
+    refines (hlt_loop_f R fl cnt i nlsps sp acc npt) (hlt_loop R (N.to_nat cnt) i nlsps sp acc npt).
+  Proof.
+    induction fl as [|f IH]; intros cnt i nlsps sp acc npt.
+    - cbn [hlt_loop_f]. apply refines_oof_l.
+    - cbn [hlt_loop_f]. destruct (cnt =? 0) eqn:Hc.
+      + apply N.eqb_eq in Hc. subst cnt. cbn [N.to_nat hlt_loop]. apply refines_refl.
+      + apply N.eqb_neq in Hc. replace (N.to_nat cnt) with (S (N.to_nat (cnt - 1))) by lia.
+        cbn [hlt_loop]. repeat first [ apply IH | rstep2 ].
+  Qed.
+
+  Lemma refines_hsps fuel : refines (hparse_sps_d R fuel) (hparse_sps R).
+  Proof.
+    unfold hparse_sps_d, hparse_sps, hparse_sps_ext_d, hparse_sps_ext, hparse_sps_scc_d, hparse_sps_scc.
+    repeat first [ apply refines_hext | rstep2 ].
+  Qed.
+
+  Lemma refines_hpps fuel spsmap : refines (hparse_pps_d R fuel spsmap) (hparse_pps R spsmap).
+  Proof.
+    unfold hparse_pps_d, hparse_pps, hparse_pps_range_d, hparse_pps_range, hparse_pps_scc_d, hparse_pps_scc.
+    repeat first [ apply refines_hext | rstep2 ].
+  Qed.
+
+  Lemma refines_hslice bib fuel spsmap ppsmap :
+    refines (hparse_slice_d R bib fuel spsmap ppsmap) (hparse_slice R bib spsmap ppsmap).
+  Proof.
+    unfold hparse_slice_d, hparse_slice, hparse_slice_main_d, hparse_slice_main.
+    repeat first [ apply refines_hlt | rstep2 ].
+  Qed.
 End Sim.
 
 Lemma run_okerr {St A} (m : St -> res (A * St)) s : okerr (run m s) -> okerr (m s).
@@ -145,4 +227,50 @@ Proof.
   assert (Hm : parse_slice_header ER spsmap ppsmap (rinit nalu) <> OutOfFuel).
   { intros X. apply Hn. unfold run. rewrite X. reflexivity. }
   unfold run. rewrite (refines_slice ER (parse_fuel nalu) spsmap ppsmap (rinit nalu) _ eq_refl Hr Hm). reflexivity.
+Qed.
+
+(* ------------------------------------------------------------------ HEVC: the wrappers agree with the C15 models *)
+Lemma c16_hparse_sps_agrees nalu :
+  hparse_sps_er nalu <> OutOfFuel -> c16_hparse_sps nalu = hparse_sps_er nalu.
+Proof.
+  intros Hn. unfold c16_hparse_sps, hparse_sps_er in *.
+  assert (Hr : okerr (run (hparse_sps_d ER (hevc_fuel nalu)) (rinit nalu))).
+  { destruct (c16_hparse_sps_total nalu) as [E|(a & E & _)]; unfold c16_hparse_sps in E; rewrite E;
+      [left; reflexivity|right; eauto]. }
+  apply run_okerr in Hr.
+  assert (Hm : hparse_sps ER (rinit nalu) <> OutOfFuel).
+  { intros X. apply Hn. unfold run. rewrite X. reflexivity. }
+  unfold run. rewrite (refines_hsps ER (hevc_fuel nalu) (rinit nalu) _ eq_refl Hr Hm). reflexivity.
+Qed.
+
+Lemma c16_hparse_slice_agrees spsmap ppsmap nalu :
+  (forall id sp, spsmap id = Some sp -> hsps_wf sp) ->
+  (forall id pp, ppsmap id = Some pp -> hpps_wf pp) ->
+  hparse_slice_er spsmap ppsmap nalu <> OutOfFuel ->
+  c16_hparse_slice spsmap ppsmap nalu = hparse_slice_er spsmap ppsmap nalu.
+Proof.
+  intros H1 H2 Hn. unfold c16_hparse_slice, hparse_slice_er in *.
+  assert (Hr : okerr (run (hparse_slice_d ER er_bib (hevc_fuel nalu) spsmap ppsmap) (rinit nalu))).
+  { destruct (c16_hparse_slice_total spsmap ppsmap nalu H1 H2) as [E|(a & E)]; unfold c16_hparse_slice in E; rewrite E;
+      [left; reflexivity|right; eauto]. }
+  apply run_okerr in Hr.
+  assert (Hm : hparse_slice ER er_bib spsmap ppsmap (rinit nalu) <> OutOfFuel).
+  { intros X. apply Hn. unfold run. rewrite X. reflexivity. }
+  unfold run. rewrite (refines_hslice ER er_bib (hevc_fuel nalu) spsmap ppsmap (rinit nalu) _ eq_refl Hr Hm). reflexivity.
+Qed.
+
+(* PPS: the wrapper may itself be OutOfFuel (unmodelled extension); where it is not, it equals C15's result
+   as soon as C15's is defined *)
+Lemma c16_hparse_pps_agrees spsmap nalu :
+  c16_hparse_pps spsmap nalu <> OutOfFuel -> hparse_pps_er spsmap nalu <> OutOfFuel ->
+  c16_hparse_pps spsmap nalu = hparse_pps_er spsmap nalu.
+Proof.
+  intros Hw Hn. unfold c16_hparse_pps, hparse_pps_er in *.
+  assert (Hr : okerr (run (hparse_pps_d ER (hevc_fuel nalu) spsmap) (rinit nalu))).
+  { destruct (c16_hparse_pps_total spsmap nalu) as [E|[E|(a & E & _)]]; unfold c16_hparse_pps in E;
+      [rewrite E; left; reflexivity|congruence|rewrite E; right; eauto]. }
+  apply run_okerr in Hr.
+  assert (Hm : hparse_pps ER spsmap (rinit nalu) <> OutOfFuel).
+  { intros X. apply Hn. unfold run. rewrite X. reflexivity. }
+  unfold run. rewrite (refines_hpps ER (hevc_fuel nalu) spsmap (rinit nalu) _ eq_refl Hr Hm). reflexivity.
 Qed.
